@@ -14,7 +14,10 @@
              http::header::Range + ByteRangeSpec::to_satisfiable_range, ConnectionInfo::new, the
              h1 encoder's header writer (length accounting), the multipart field scanner and
              boundary readers (index arithmetic; look-ahead constant read from the sources). `Query` extraction is a single call
-             of serde_urlencoded::from_str (outside). *)
+             of serde_urlencoded::from_str (outside).
+   Part (c): the shared parsers of the typed request headers (theories/Panic/TypedHdr.v): EntityTag,
+             QualityItem<T>, from_comma_delimited / from_one_raw_str, the {Any / (item)+} arm of
+             common_header!, Preference<T>, Encoding, ContentRangeSpec. *)
 From AV Require Import Lib.Base.
 From AV Require Props.C01 Props.C07 Props.C09 Props.C10 Props.C12 Props.C14 Props.C16 Props.C17 Props.C18.
 From AV Require Gen.Consts Panic.ClientNoPanic.
@@ -22,6 +25,7 @@ From AV Require Import Panic.Str Panic.StrProofs.
 From AV Require Import Panic.CDisp Panic.CDispProofs Panic.RangeHdr Panic.RangeHdrProofs.
 From AV Require Import Panic.ConnInfo Panic.ConnInfoProofs Panic.HdrWriter Panic.HdrWriterProofs.
 From AV Require Import Panic.MpScan Panic.MpScanProofs Panic.HeadPhase Panic.HeadPhaseProofs.
+From AV Require Panic.TypedHdr Panic.TypedHdrProofs.
 
 (* ============================== (a) cores modelled for other properties ====================== *)
 
@@ -316,4 +320,98 @@ Example C19_example :
   write_headers grow_min 3 8 [(6, 10); (7, 100)] = Val (3 + 20 + 111, 245) /\
   read_stream 4 [97; 13; 10; 88] false [120] = Val (RChunk [97] [13; 10; 88]) /\
   read_stream 4 [13; 10; 45; 45; 120; 13; 10] false [120] = Val RBoundary.
+Proof. vm_compute. repeat split. Qed.
+
+(* ============================== (c) typed request headers: the shared parsers ================= *)
+(* Panic/TypedHdr.v. The literals of the length guards come from Gen/Consts.v (extracted from
+   entity.rs / quality_item.rs on every run): a changed guard breaks these proofs. *)
+
+(* EntityTag::from_str (ETag, If-Match, If-None-Match, If-Range): `&slice[1..length - 1]` and
+   `&slice[3..length - 1]` are in range and on char boundaries, `length - 1` does not underflow,
+   for every &str (valid UTF-8) *)
+Theorem C19_entity_tag_never_panics : forall s : bytes, utf8_valid s = true ->
+  TypedHdr.entity_from_str Consts.ETAG_MIN_LEN Consts.ETAG_STRONG_MIN_LEN Consts.ETAG_WEAK_MIN_LEN s <> Panic.
+Proof.
+  intros s V.
+  destruct (TypedHdrProofs.entity_from_str_total Consts.ETAG_MIN_LEN Consts.ETAG_STRONG_MIN_LEN Consts.ETAG_WEAK_MIN_LEN
+              ltac:(vm_compute; discriminate) ltac:(vm_compute; discriminate) s (utf8_valid_aa_ok s V)) as [o E].
+  rewrite E. discriminate.
+Qed.
+
+(* the guards are needed: one less in either literal and a one-byte dquote / the three bytes W/dquote panic *)
+Theorem C19_entity_tag_weaker_guards_panic :
+  TypedHdr.entity_from_str 1 1 4 [34] = Panic /\ TypedHdr.entity_from_str 2 2 3 [87; 47; 34] = Panic.
+Proof. split; vm_compute; reflexivity. Qed.
+
+(* QualityItem<T>::from_str: `&q_attr[0..2]`, `&q_attr[2..]` in range and on char boundaries, for
+   every item parser that is total on ASCII strings and every float parser *)
+Theorem C19_quality_item_never_panics :
+  forall (T : Type) (item : bytes -> R (option T)) (qparse : bytes -> option N) (s : bytes),
+  (forall x, TypedHdr.is_ascii x = true -> item x <> Panic) ->
+  TypedHdr.qitem_from_str item qparse Consts.QITEM_MIN_ATTR_LEN Consts.QITEM_MAX_QVAL_LEN s <> Panic.
+Proof.
+  intros T item qparse s H. apply TypedHdrProofs.qitem_from_str_never_panics; [exact H|vm_compute; discriminate].
+Qed.
+Theorem C19_quality_item_weaker_guard_panics :
+  TypedHdr.qitem_from_str (fun x => Val (Some x)) (fun _ => None) 1 5 [97; 59; 113] = Panic.
+Proof. vm_compute. reflexivity. Qed.
+
+(* from_comma_delimited / from_one_raw_str / the {Any / (item)+} arm of common_header! /
+   Preference<T>::from_str, for every item parser that is total on ASCII strings *)
+Theorem C19_header_list_parsers_never_panic :
+  forall (T : Type) (item : bytes -> R (option T)) (vals : list bytes) (one : option bytes) (s : bytes),
+  (forall x, TypedHdr.is_ascii x = true -> item x <> Panic) ->
+  TypedHdr.from_comma_delimited_g item vals [] <> Panic /\
+  TypedHdr.from_one_raw_str_g item one <> Panic /\
+  TypedHdr.any_or_items item vals <> Panic /\
+  (TypedHdr.is_ascii s = true -> TypedHdr.preference_from_str item s <> Panic).
+Proof.
+  intros T item vals one s H. repeat split.
+  - destruct (TypedHdrProofs.from_comma_delimited_g_total T item H vals []) as [o E]. rewrite E. discriminate.
+  - apply TypedHdrProofs.from_one_raw_str_g_never_panics, H.
+  - apply TypedHdrProofs.any_or_items_never_panics, H.
+  - apply TypedHdrProofs.preference_from_str_never_panics, H.
+Qed.
+
+(* the instances the framework parses: If-Match / If-None-Match (Any or entity-tag list), ETag and the
+   entity-tag arm of If-Range (one raw str), Accept-Encoding (list of QualityItem<Preference<Encoding>>) *)
+Definition etag_item : bytes -> R (option (bool * bytes)) :=
+  TypedHdr.entity_from_str Consts.ETAG_MIN_LEN Consts.ETAG_STRONG_MIN_LEN Consts.ETAG_WEAK_MIN_LEN.
+Definition accept_encoding_item (qparse : bytes -> option N) : bytes -> R (option ((unit + bytes) * N)) :=
+  TypedHdr.qitem_from_str (TypedHdr.preference_from_str TypedHdr.encoding_from_str) qparse
+    Consts.QITEM_MIN_ATTR_LEN Consts.QITEM_MAX_QVAL_LEN.
+Theorem C19_etag_and_accept_encoding_headers_never_panic :
+  forall (vals : list bytes) (one : option bytes) (qparse : bytes -> option N),
+  TypedHdr.any_or_items etag_item vals <> Panic /\
+  TypedHdr.from_one_raw_str_g etag_item one <> Panic /\
+  TypedHdr.from_comma_delimited_g (accept_encoding_item qparse) vals [] <> Panic.
+Proof.
+  intros vals one qparse.
+  assert (He : forall x, TypedHdr.is_ascii x = true -> etag_item x <> Panic).
+  { intros x Hx. unfold etag_item.
+    destruct (TypedHdrProofs.entity_from_str_total Consts.ETAG_MIN_LEN Consts.ETAG_STRONG_MIN_LEN Consts.ETAG_WEAK_MIN_LEN
+                ltac:(vm_compute; discriminate) ltac:(vm_compute; discriminate) x (TypedHdrProofs.is_ascii_aa_ok x Hx)) as [o E].
+    rewrite E. discriminate. }
+  assert (Hp : forall x, TypedHdr.is_ascii x = true -> TypedHdr.preference_from_str TypedHdr.encoding_from_str x <> Panic).
+  { intros x Hx. apply TypedHdrProofs.preference_from_str_never_panics; [|exact Hx].
+    intros y _. apply TypedHdrProofs.encoding_from_str_never_panics. }
+  repeat split.
+  - apply TypedHdrProofs.any_or_items_never_panics, He.
+  - apply TypedHdrProofs.from_one_raw_str_g_never_panics, He.
+  - destruct (TypedHdrProofs.from_comma_delimited_g_total _ (accept_encoding_item qparse)
+               (fun x _ => C19_quality_item_never_panics _ _ qparse x Hp) vals []) as [o E].
+    rewrite E. discriminate.
+Qed.
+
+(* ContentRangeSpec::from_str *)
+Theorem C19_content_range_never_panics : forall s : bytes, TypedHdr.content_range_from_str s <> Panic.
+Proof. exact TypedHdrProofs.content_range_never_panics. Qed.
+
+(* non-vacuity: a weak tag with a multi-byte character, `gzip ; Q=0.5`, `*, W/dquote a dquote`, `bytes 0-9/*` *)
+Example C19_example_typed_headers :
+  TypedHdr.entity_from_str 2 2 4 [87; 47; 34; 195; 169; 34] = Val (Some (true, [195; 169])) /\
+  TypedHdr.qitem_from_str (fun x => Val (Some x)) (fun v => if bytes_eqb v [48; 46; 53] then Some 500 else None) 2 5
+    [103; 122; 105; 112; 32; 59; 32; 81; 61; 48; 46; 53] = Val (Some ([103; 122; 105; 112], 500)) /\
+  TypedHdr.any_or_items etag_item [[42; 44; 32; 87; 47; 34; 97; 34]] = Val (Some (inr [(true, [97])])) /\
+  TypedHdr.content_range_from_str [98; 121; 116; 101; 115; 32; 48; 45; 57; 47; 42] = Val (Some (TypedHdr.CRBytes (Some (0, 9)) None)).
 Proof. vm_compute. repeat split. Qed.
